@@ -182,7 +182,13 @@ class PropertiesDataBounds(PropertiesData):
                 # There is a bounds array
                 bounds_indices = list(data._parse_indices(indices))
 
-                if data.ndim <= 2:
+                if data.ndim <= 2 and data.shape[-1] == 2:
+                    # Note: Only cells with two vertices have an
+                    #       order that follows the direction of the
+                    #       axis. The vertices of polygon cells
+                    #       (e.g. UGRID faces, whose trailing
+                    #       missing values must stay at the end) are
+                    #       never reordered.
                     index = bounds_indices[0]
                     if isinstance(index, slice):
                         if index.step and index.step < 0:
